@@ -37,7 +37,7 @@ func VerifH15p() {
 	}
 	store := &stub.Queryable{Ser: ser, FaultErr: errVerifStore}
 	store.FaultMode = 1 + sym.Choice("faultKind", 4) // error, panic(error), panic(string), runtime error
-	iterMode := sym.Choice("iteratorFault", 3) // 0 none, 1 iterator error, 2 iterator panic
+	iterMode := sym.Choice("iteratorFault", 3)       // 0 none, 1 iterator error, 2 iterator panic
 	iterFault := iterMode == 1
 	if iterMode == 2 {
 		store.FaultMode = 0
@@ -46,12 +46,16 @@ func VerifH15p() {
 		ser[0].Panic = true
 	}
 	if iterFault {
-		// the sample iterator of foo{a=x} fails on its first sample instead
+		// the sample iterator of foo{a=x} fails instead: on its first sample, or after one
+		// good sample (which is then still within the lookback window of the next step)
 		store.FaultMode = 0
-		ser[0].FailAt = 0
+		ser[0].FailAt = sym.Choice("iteratorFailsAt", 2)
 		ser[0].FailErr = errVerifStore
 	}
-	step := sym.Int64("step", 1, verifR)
+	if iterMode != 0 {
+		ser[0].S = append(ser[0].S, stub.Sample{T: start + 1, V: sym.Float64("v0b")})
+	}
+	step := sym.Int64("step", 2, verifR)
 	rangeQ := sym.Choice("range", 2) == 1
 	sym.SetGOMAXPROCS(2 * sym.IntRange("shards", 1, 2))
 	e := verifEngine(logicalplan.DefaultOptimizers, sym.Int64("lookback", 1, verifR))
